@@ -59,7 +59,7 @@ let ref_sexp = function None -> A "none" | Some v -> sexp_of_pyval v
 let psegs_sexp (txt : char list) : t =
   outcome_sexp (fun l -> L (List.map seg_sexp l)) (parse Auto true txt)
 
-let rec item_sexp (v : rnode) : t =
+let rec item_sexp (v : rval) : t =
   match v with
   | RNode n -> L [A "n"; oid_atom n]
   | RList l -> L (A "l" :: List.map item_sexp l)
@@ -77,10 +77,10 @@ let nstr_of_table (tbl : t) : node -> char list =
     | Some v -> v
     | None -> failwith "nstr-miss"
 
-let vstr (_ : rnode list) : char list = failwith "vstr-needed"
+let vstr (_ : rval list) : char list = failwith "vstr-needed"
 let kw_handler _ _ _ _ _ = failwith "keyword-segment"
 (* creation changes the document: the model stops with Mut *)
-let creator _ _ (v : rnode) _ = ([], Mut (N0, PNone))
+let creator _ _ (v : rval) _ = ([], Mut (N0, PNone))
 
 let gen_sexp_with (f : 'a list -> t) (g : 'a list * stop) : t =
   match g with
